@@ -571,8 +571,21 @@ pub fn macro_program(rng: &mut Rng) -> String {
             12 => out.push_str(&format!("`ifdef M{}{}  a{}`elsif F{}{}  b{}`else{}  c{}`endif{}", rng.below(4), e, e, rng.below(3), e, e, e, e, e)),
             13 => out.push_str(&format!("`ifndef M{} `define M{} 1 {}`endif{}", rng.below(4), rng.below(4), e, e)),
             14 => out.push_str(&format!("$display(`__FILE__, `__LINE__);{}", e)),
-            15 => out.push_str(&format!("`line {} \"f.v\" {}{}", rng.below(100), rng.below(3), e)),
-            16 => out.push_str(&format!("`timescale 1{} / 10{}{}", rng.pick(&["ns", "ps", "us"]), rng.pick(&["ps", "fs"]), e)),
+            15 => {
+                // the grammar allows any number token here, not only a plain decimal
+                let n = match rng.below(8) {
+                    0 => "1_000".to_string(),
+                    1 => "8'hff".to_string(),
+                    2 => "'d10".to_string(),
+                    3 => "2.5".to_string(),
+                    4 => "1e3".to_string(),
+                    5 => "4294967296".to_string(),
+                    6 => "0".to_string(),
+                    _ => format!("{}", rng.below(100)),
+                };
+                out.push_str(&format!("`line {} \"f.v\" {}{}$display(`__LINE__);{}", n, rng.below(3), e, e));
+            }
+            16 => out.push_str(&format!("`timescale {}{} / {}{}{}", rng.pick(&["1", "10", "100", "1_0", "3"]), rng.pick(&["ns", "ps", "us", "s", "ms"]), rng.pick(&["1", "10", "100"]), rng.pick(&["ps", "fs", "ns"]), e)),
             17 => out.push_str(&format!("`begin_keywords \"{}\"{}", rng.pick(VERSIONS), e)),
             18 => out.push_str(&format!("`end_keywords{}", e)),
             19 => out.push_str(&format!("`pragma protect {}{}", ident(rng), e)),
@@ -739,4 +752,24 @@ pub fn corpus_sv_nth(i: usize, max: usize) -> Option<&'static str> {
 
 pub fn corpus_sv_count() -> usize {
     corpus().snippets.iter().filter(|s| s.kind == "sv").count()
+}
+
+
+/// comments inside macro bodies, arguments and next to usages: the places where strip_comments acts
+/// inside nested expansions
+pub fn comment_macro_program(rng: &mut Rng) -> String {
+    let mut out = String::new();
+    out.push_str("// head comment\n");
+    let n = 2 + rng.below(4);
+    for i in 0..n {
+        match rng.below(5) {
+            0 => out.push_str(&format!("`define CM{}(x) x /* in body {} */ + 1\nwire a{} = `CM{}({}); /* after */\n", i, i, i, i, number(rng))),
+            1 => out.push_str(&format!("`define CN{} /* only a comment */\nwire b{} `CN{} ;\n", i, i, i)),
+            2 => out.push_str(&format!("`define CO{} {} // line comment in body\nwire c{} = `CO{} ;\n", i, ident(rng), i, i)),
+            3 => out.push_str(&format!("`define CP{}(x, y) x /* 1 */ y /* 2 */\nassign d{} = `CP{}(a /* in arg */, + b);\n", i, i, i)),
+            _ => out.push_str(&format!("`define CQ{} `CO0 /* nested */\n/* between */ wire e{};\n", i, i)),
+        }
+    }
+    out.push_str("module m; /* m */ endmodule // tail\n");
+    out
 }
